@@ -20,7 +20,11 @@ From PNA Require Import Base Crc32 Name Codec Chunk Archive Entry Flatten Cbc Ct
 
 (* WriteOptions: compression method and level, encryption algorithm, cipher mode *)
 Record config := { g_comp : compression; g_level : N; g_enc : encryption; g_mode : cipher_mode }.
-Definition store_cfg : config := {| g_comp := CNo; g_level := 0; g_enc := ENo; g_mode := MCbc |}.   (* WriteOptions::store() *)
+(* EntryHeader::new (directories and links): no compression, no encryption, CBC *)
+Definition store_cfg : config := {| g_comp := CNo; g_level := 0; g_enc := ENo; g_mode := MCbc |}.
+(* WriteOptions::store() as EntryHeader::for_file sees it: options without a cipher report CipherMode::CTR
+   (WriteOptions::cipher_mode), so every unencrypted file or solid header says CTR *)
+Definition store_file_cfg : config := {| g_comp := CNo; g_level := 0; g_enc := ENo; g_mode := MCtr |}.
 Definition encrypted (cfg : config) : bool := match g_enc cfg with ENo => false | _ => true end.
 
 (* CipherContext (to_hashed): derived key, random IV, PHSF string *)
@@ -97,9 +101,12 @@ Definition eff_cfg (cfg : config) (k : data_kind) : config := match k with KFile
 Definition build_data (cfg : config) (ctx : cctx) (wcuts : list bytes) : list bytes :=
   iv_part cfg ctx ++ flat_sink (data_pieces cfg ctx wcuts).
 
+(* EntryBuilder::write on a directory builder (new_dir has no data writer): Ok(buf.len()), the bytes are dropped *)
+Definition eff_wcuts (k : data_kind) (wcuts : list bytes) : list bytes := match k with KDir => [] | _ => wcuts end.
+
 Definition build_normal (cfg0 : config) (ctx : cctx) (sp : spec) (wcuts : list bytes) : normal_entry :=
   let cfg := eff_cfg cfg0 (sp_kind sp) in
-  let data := build_data cfg ctx wcuts in
+  let data := build_data cfg ctx (eff_wcuts (sp_kind sp) wcuts) in
   {| n_hdr := {| f_major := 0; f_minor := 0; f_kind := sp_kind sp; f_comp := g_comp cfg;
                  f_enc := g_enc cfg; f_mode := g_mode cfg; f_name := sp_name sp |};
      n_phsf := phsf_part cfg ctx;
@@ -165,6 +172,16 @@ Definition stream_file_chunks (cfg : config) (ctx : cctx) (sp : spec) (wcuts : l
 (* ---- solid entries ------------------------------------------------------------------------------------ *)
 (* the byte stream of a solid entry: its inner entries, each written with write_in *)
 Definition solid_plain_stream (inner : list normal_entry) : bytes := ser_chunks (concat (map ser_normal inner)).
+
+(* how the bytes of a chunk reach a writer (ChunkExt::write_chunk_in): write_all of the length, of the type,
+   of the payload and of the CRC; write_all of an empty payload makes no write call.  The sinks of this crate
+   accept every write whole, so each write_all is one write. *)
+Definition chunk_writes (c : chunk) : list bytes :=
+  [be32 (len (cdata c)); cty c] ++ (match cdata c with [] => [] | d => [d] end) ++ [be32 (chunk_crc c)].
+Definition chunks_writes (cs : list chunk) : list bytes := concat (map chunk_writes cs).
+(* SolidEntryBuilder::add_entry / SolidArchive::add_entry of each inner entry (NormalEntry::chunks_write_in):
+   the write calls the solid pipeline sees *)
+Definition solid_writes (inner : list normal_entry) : list bytes := chunks_writes (concat (map ser_normal inner)).
 
 (* SolidEntryBuilder: add_entry*, build.  `swcuts` is how the inner entries' bytes arrive at the
    pipeline (write_chunk_in makes several writes per chunk); concat swcuts = solid_plain_stream inner *)
